@@ -43,10 +43,13 @@ func TestMain(m *testing.M) {
 			"the length; EOF arrives exactly after the last byte; nothing follows it. Tamper cases (Noise, TLS) apply one frame-aware edit to the "+
 			"post-handshake ciphertext (flip a byte per position class, drop, duplicate, swap neighbours, truncate, insert a forged frame): everything the "+
 			"reader ever receives is a prefix of what was sent, what it has at the first error ends at or before the first tampered frame's plaintext, and it gets an error. "+
-			"NON-TRIVIAL = some direction spans more than one frame of the layer, or a read buffer is smaller than the pending frame "+
-			"(queued-remainder path), or lies in [plaintext, plaintext+16) (pooled path), or a tamper was applied; for stream layers also: two or more "+
-			"streams interleaved, or a half-close followed by further reads the other way. DISTINCT = distinct structured plan (lengths, splits, read specs, chunk "+
-			"patterns, capacity, tamper).",
+			"NON-TRIVIAL (decided on the plan, by replaying the read specs against the frame model) = some direction spans more than one frame of the layer, "+
+			"or a read buffer is smaller than the pending frame (queued-remainder path), or lies in [plaintext, plaintext+16) (pooled path), or a tamper "+
+			"was applied; for stream layers also: two or more streams interleaved, or directions of unequal length (the shorter one is half-closed while the "+
+			"other still delivers). The Noise read path taken by every Read (in-place / pooled whole frame / pooled with queued remainder / drain) is derived from "+
+			"the size relation and reported as labels (cases that hit the path). TestL1NoiseReadSweep additionally enumerates a grid completely: every pair of "+
+			"consecutive frame sizes x every triple of buffer sizes relative to the pending frame, all triples of a pair on one session. "+
+			"DISTINCT = distinct structured plan (lengths, splits, read specs, chunk patterns, capacity, tamper).",
 		"the in-memory pipe (internal/memnet) and the chunking wrapper deliver bytes faithfully; they are checked by the same oracle in the pnet layer where nothing else could repair an error",
 		"frame sizes of each layer (Noise 65519, TLS 16384, yamux 65524) are used only to aim the generator and to label cases, never in the verdict of untampered cases",
 		"tamper verdicts rely on the wire framing (Noise: 2-byte length prefix, 16-byte tag; TLS 1.3: 5-byte header, 17 bytes overhead) to locate the first tampered frame's plaintext offset (an upper bound for TLS)",
@@ -288,6 +291,46 @@ func drawDir(rt *rapid.T, label string, big int) dirPlan {
 	p.Writes = drawWrites(rt, label, p.Total)
 	p.Reads, p.Tail = drawReads(rt, label)
 	return p
+}
+
+// simReads replays the plan's read specs against the frame model (a Read returns
+// min(buffer, rest of the pending frame)) and reports whether some buffer is smaller than
+// the pending frame and whether some buffer lies in [plaintext, plaintext+tagLen). It
+// depends on the plan only, so the non-trivial verdict of a case is reproducible even
+// where the real Read sizes depend on timing (pnet, yamux).
+func simReads(p dirPlan, frames []int, tagLen int) (small, pooled bool) {
+	fi, fo, budget := 0, 0, 400
+	for step := 0; fi < len(frames) && step < 100000; step++ {
+		pend := frames[fi] - fo
+		spec := p.Reads[step%len(p.Reads)]
+		var L int
+		switch spec.Kind {
+		case specAbs:
+			L = spec.V
+		case specRel:
+			L = pend + spec.V
+		case specHalf:
+			L = pend / 2
+		}
+		if L < 256 {
+			if budget > 0 {
+				budget--
+			} else {
+				L = p.Tail
+			}
+		}
+		L = max(1, L)
+		if L < pend {
+			small = true
+		} else if fo == 0 && tagLen > 0 && L < pend+tagLen {
+			pooled = true
+		}
+		fo += min(L, pend)
+		if fo >= frames[fi] {
+			fi, fo = fi+1, 0
+		}
+	}
+	return small, pooled
 }
 
 // ---------------------------------------------------------------------------
